@@ -3,7 +3,8 @@
 Families : 24 program families parameterised by N (consecutive statements at module/function/class/
            loop level and after an early exit, elif chains, chained binary/boolean/comparison
            operators, call/attribute/subscript chains, nested if/for/while/def/class blocks, nested
-           brackets and lambdas, long tuple targets, long augmented right-hand sides, many defs ...).
+           brackets and lambdas, long tuple targets, long augmented right-hand sides, many defs ...), plus a long operator
+           chain in each of 20 expression-hosting statement slots.
            Families bounded by CPython's own nesting limits also get the sizes just below the limit
            (50, 90, 98 indentation levels; 15, 19, 20 nested loops).
 Bound    : N on the geometric grid {10, 30, 100, 300, 1000} (quick) + {3000, 10000} (thorough), cut
@@ -85,6 +86,36 @@ FAMILIES = {
     "long-list-display": lambda n: "x = [" + ", ".join(str(i) for i in range(n)) + "]\nprint(sum(x))\n",
     "dict-unpack-chain": lambda n: "d = {1: 2}\nx = {" + ", ".join(["**d"] * n) + "}\nprint(x)\n",
 }
+
+
+def _E(n):
+    return " + ".join(["1"] * n)
+
+
+# a long operator chain in every statement slot that hosts an expression (each slot is lowered by different code,
+# and any of them may pass the expression through a recursive helper)
+FAMILIES.update({
+    "long-expr:aug-attr-rhs": lambda n: "class O:\n    a = 0\no = O()\no.a += " + _E(n) + "\nprint(o.a)\n",
+    "long-expr:aug-subscript-rhs": lambda n: "d = [0]\nd[0] += " + _E(n) + "\nprint(d[0])\n",
+    "long-expr:aug-subscript-index": lambda n: "d = {%d: 0}\nd[" % n + _E(n) + "] += 1\nprint(d)\n",
+    "long-expr:attr-assign-rhs": lambda n: "class O:\n    pass\no = O()\no.a = " + _E(n) + "\nprint(o.a)\n",
+    "long-expr:subscript-assign-index": lambda n: "d = {}\nd[" + _E(n) + "] = 1\nprint(d)\n",
+    "long-expr:if-test": lambda n: "if " + _E(n) + ":\n    print(1)\nelse:\n    print(0)\n",
+    "long-expr:while-test": lambda n: "x = 0\nwhile x < " + _E(n) + ":\n    x = %d\nprint(x)\n" % n,
+    "long-expr:for-iter": lambda n: "for i in [" + _E(n) + "]:\n    print(i)\n",
+    "long-expr:return": lambda n: "def f():\n    return " + _E(n) + "\nprint(f())\n",
+    "long-expr:call-arg": lambda n: "print(" + _E(n) + ")\n",
+    "long-expr:param-default": lambda n: "def f(a=" + _E(n) + "):\n    return a\nprint(f())\n",
+    "long-expr:lambda-body": lambda n: "f = lambda: " + _E(n) + "\nprint(f())\n",
+    "long-expr:comprehension-elt": lambda n: "print([" + _E(n) + " for _ in range(1)])\n",
+    "long-expr:unpack-rhs": lambda n: "a, b = " + _E(n) + ", 2\nprint(a, b)\n",
+    "long-expr:walrus": lambda n: "print((y := " + _E(n) + "), y)\n",
+    "long-expr:class-attr": lambda n: "class K:\n    v = " + _E(n) + "\nprint(K.v)\n",
+    "long-expr:decorator-arg": lambda n: "def deco(k):\n    return lambda f: (lambda: f() + k)\n@deco(" + _E(n) + ")\ndef g():\n    return 0\nprint(g())\n",
+    "long-expr:class-base-call": lambda n: "def B(k):\n    return type('B', (), {'k': k})\nclass K(B(" + _E(n) + ")):\n    pass\nprint(K.k)\n",
+    "long-expr:fstring-field": lambda n: "print(f'{" + _E(n) + "}')\n",
+    "long-expr:import-then-attr": lambda n: "import os\nprint(len(os.sep) + " + _E(n) + ")\n",
+})
 GRID_Q = [10, 30, 100, 300, 1000]
 GRID_T = [10, 30, 100, 300, 1000, 3000, 10000]
 # families whose source CPython refuses early (100 indentation levels, 20 statically nested blocks): sizes just below the limit
